@@ -61,6 +61,10 @@ func (P *Program) mergedContract(ct *Contract) (*Contract, *Contract) {
 // VerifyFunc generates the obligations of fn under contract ct.
 func (P *Program) VerifyFunc(ct *Contract, fn *ssa.Function) (res *FuncResult) {
 	res = &FuncResult{Contract: ct, Fn: fn}
+	aimOn := ct.AimCheck != nil && P.aimOn != nil && P.aimOn(ct.AimCheck.Tag)
+	if aimOn {
+		ct = ct.aimView()
+	}
 	vc := NewVC(P.reg)
 	res.VC = vc
 	ex := &Exec{P: P, vc: vc, reg: P.reg, top: fn, safetyTag: ct.Safety, hsorts: heapSorts{}, expands: map[string]bool{}, reprCache: map[string]string{}, maxInline: 400}
@@ -113,7 +117,13 @@ func (P *Program) VerifyFunc(ct *Contract, fn *ssa.Function) (res *FuncResult) {
 	f := ex.newFrame(fn)
 	f.contract = ct
 	ex.topFrame = f
-	ex.aim = ct.AimCheck
+	ex.frames = []*Frame{f}
+	if aimOn {
+		ex.aim = ct.AimCheck
+		ex.origins = map[int]*epochOrigin{}
+		ex.heapTypes = map[string]types.Type{}
+		ex.oblPrefix += "@aim"
+	}
 	vc.opaqueArith = ct.OpaqueArith
 	// parameters
 	var args []Val
